@@ -71,10 +71,10 @@ def r1(c, ops):
     c.count("functions")
     sm = None
     for n in walk_no_nested(dl):
-        if isinstance(n, ast.Assign) and isinstance(n.value, ast.Dict) and n.value.keys and all(op_const(k) for k in n.value.keys):
-            sm = dict_ops(n.value)
+        if isinstance(n, ast.Dict) and n.keys and all(k is not None and op_const(k) for k in n.keys) and all(isinstance(v, ast.Constant) for v in n.values):
+            sm = dict_ops(n)
     if sm is None:
-        raise AnchorError("_diff_lines: sign_map literal not found")
+        raise AnchorError("_diff_lines: sign map literal {Op.X: '<sign>' ...} not found")
     signs = {k: (v.value if isinstance(v, ast.Constant) else None) for k, v in sm.items()}
     ok = set(signs) == names - {"UNCHANGED"} and all(isinstance(s, str) and len(s) == 1 for s in signs.values()) and len(set(signs.values())) == len(signs)
     c.check("C03.R1", ok, repo.loc(tm, dl), "_diff_lines/sign_map", f"sign_map {signs}: must cover every op except UNCHANGED with distinct one-character signs", key_text="sign_map")
@@ -326,8 +326,26 @@ def r5(c):
         f = gm.formula(yf[0], G.GuardEnv())
         ok = G.implies(G.Atom("children"), f)
     c.check("C03.R5", ok, repo.loc(tm, loop), "_diff_lines/recursion", "children are not rendered (recursively, one level deeper) whenever an item has children", key_text="dl-rec")
-    uses_sign = all(any(isinstance(n, ast.Name) and n.id == "sign" for n in ast.walk(y.value)) for y in ys)
-    c.check("C03.R5", uses_sign and any(norm(n) == "sign_map[flag]" for n in ast.walk(loop)), repo.loc(tm, loop), "_diff_lines/sign", "rendered line does not start with sign_map[flag]", key_text="dl-sign")
+    flagvar = loop.target.elts[0].id if isinstance(loop.target, ast.Tuple) and isinstance(loop.target.elts[0], ast.Name) else "flag"
+    pvd = Provenance(fn)
+
+    def is_sign(e):
+        e = pvd.resolve_alias(e)
+        return isinstance(e, ast.Subscript) and norm(e.slice) == flagvar and (isinstance(pvd.resolve_alias(e.value), ast.Dict) or isinstance(e.value, ast.Dict))
+
+    def first_piece(y):
+        v = y.value
+        if isinstance(v, ast.BinOp) and isinstance(v.op, ast.Mod) and isinstance(v.right, ast.Tuple) and v.right.elts:
+            return v.right.elts[0]
+        if isinstance(v, ast.JoinedStr):
+            for part in v.values:
+                if isinstance(part, ast.FormattedValue):
+                    return part.value
+                if isinstance(part, ast.Constant) and str(part.value).strip():
+                    return None
+        return None
+    uses_sign = bool(ys) and all(first_piece(y) is not None and is_sign(first_piece(y)) for y in ys)
+    c.check("C03.R5", uses_sign, repo.loc(tm, loop), "_diff_lines/sign", "a rendered line does not start with the sign of the item's own op (sign map indexed by the item's flag)", key_text="dl-sign")
     # gen_pre_as_diff
     dm = repo.module(ADIFF)
     g = repo.func(ADIFF, "gen_pre_as_diff")
